@@ -46,7 +46,7 @@ Section Token.
     wk_lt s.(cwk) (bound s) /\ wk_lt s.(ewk) (bound s) /\
     Forall (fun k => k < bound s) s.(wtaken).
 
-  Lemma inv_fresh_init inputs ext : inv_fresh (init F inputs ext).
+  Lemma inv_fresh_init inputs sl ext : inv_fresh (init_slow F inputs sl ext).
   Proof. unfold inv_fresh, started, bound; cbn. split_and!; try done; lia. Qed.
 
   Lemma step_inv_fresh s a s' : inv_fresh s -> step F f s a = Some s' -> inv_fresh s'.
@@ -61,12 +61,11 @@ Section Token.
     all: split_and!.
     all: try fresh_solve.
     all: try (by apply Forall_cons).
-    - replace (njobs - length l) with (S (njobs - S (length l))) by lia. exact Hl.
-    - rewrite Nat.add_1_r, seq_S, <- H1. f_equal. f_equal. lia.
-    - rewrite Nat.add_1_r, seq_S, <- H1. f_equal. f_equal. lia.
+    all: try (replace (njobs - length l) with (S (njobs - S (length l))) by lia; exact Hl).
+    all: rewrite Nat.add_1_r, seq_S, <- H1; f_equal; f_equal; lia.
   Qed.
 
-  Lemma reach_inv_fresh inputs ext tr s : run F f (init F inputs ext) tr = Some s -> inv_fresh s.
+  Lemma reach_inv_fresh inputs sl ext tr s : run F f (init_slow F inputs sl ext) tr = Some s -> inv_fresh s.
   Proof. apply run_invariant_all; [apply inv_fresh_init|apply step_inv_fresh]. Qed.
 
   (* ---------- tokens ---------- *)
@@ -78,7 +77,7 @@ Section Token.
   Definition inv_token (s : state) : Prop :=
     s.(poll_fn) = true -> dropped s = false -> tokens s = true.
 
-  Lemma inv_token_init inputs ext : inv_token (init F inputs ext).
+  Lemma inv_token_init inputs sl ext : inv_token (init_slow F inputs sl ext).
   Proof. done. Qed.
 
   Lemma fresh_live (wt : list nat) b j : Forall (fun k => k < b) wt -> b <= j -> negb (bool_decide (j ∈ wt)) = true.
@@ -111,7 +110,7 @@ Section Token.
     all: bool_hyps; subst; cbn in *; congruence.
   Qed.
 
-  Lemma reach_inv_token inputs ext tr s : run F f (init F inputs ext) tr = Some s -> inv_token s.
+  Lemma reach_inv_token inputs sl ext tr s : run F f (init_slow F inputs sl ext) tr = Some s -> inv_token s.
   Proof.
     intros Hr.
     assert (H : inv_fresh s /\ inv_shape s /\ inv_token s); [|tauto].
@@ -124,12 +123,12 @@ Section Token.
   Qed.
 
   (* C12.3 (a): the producer can always be woken *)
-  Theorem backpressure_release inputs ext tr s :
-    run F f (init F inputs ext) tr = Some s ->
+  Theorem backpressure_release inputs sl ext tr s :
+    run F f (init_slow F inputs sl ext) tr = Some s ->
     s.(jobq) = [] -> s.(running) = None -> dropped s = false -> s.(poll_fn) = true ->
     live_opt s s.(inp_waker) = true \/ live_opt s s.(bp) = true \/ wk_tok s s.(cwk) = true \/ wk_tok s s.(ewk) = true.
   Proof.
-    intros Hr Hq Hrun Hd Hp. pose proof (reach_inv_token _ _ _ _ Hr Hp Hd) as Ht.
+    intros Hr Hq Hrun Hd Hp. pose proof (reach_inv_token _ _ _ _ _ Hr Hp Hd) as Ht.
     unfold tokens, rtok in Ht. rewrite Hq, Hrun in Ht. cbn in Ht.
     repeat match type of Ht with (_ || _) = true => apply orb_prop in Ht as [Ht|Ht] end; auto.
   Qed.
